@@ -53,7 +53,12 @@ class RefModel:
         return triple
 
     def canonical_inversion(self, role):
-        """inversions removed in pairs (parity kept); a model-defined role is left alone"""
+        """inversions removed in pairs (parity kept); a model-defined role is left alone.
+
+        Collision roles: when the model defines X-of but not X, tests/test_model.py pins X to be
+        read as the inverse of X-of, whose canonical spelling is X-of-of (parity is kept)."""
+        if not self.defined(role) and not role.endswith('-of') and self.defined(role + '-of'):
+            return role + '-of-of'
         while not self.defined(role) and role.endswith('-of-of') and not self.defined(role[:-3]):
             role = role[:-6]
         return role
